@@ -39,3 +39,8 @@ man={
 }
 json.dump(man,open('/verif/MANIFEST.json','w'),indent=1)
 print(len(checks),'checks',len(nas),'not applicable')
+# every claimed property must have its evidence file tracked in git
+import subprocess
+tracked=set(subprocess.run(['git','-C','/verif','ls-files','evidence'],capture_output=True,text=True).stdout.split())
+missing=[c['property_id'] for c in checks if f"evidence/{c['property_id']}.json" not in tracked]
+if missing: print('WARNING: evidence not committed for', ' '.join(missing), '- run ./check <id> and git add evidence/')
